@@ -158,6 +158,18 @@ func (t *MType) Invoke(ex *exec.Exec, method string, args []exec.Value) exec.Val
 		return tm.TypeVal(t.Underlying())
 	case "String":
 		return tm.TypeString(ex, t, nil)
+	case "Obj":
+		if t.Obj != nil {
+			return t.Obj
+		}
+	case "TypeArgs":
+		return ptrOrNil(t.TArgs)
+	case "TypeParams":
+		return ptrOrNil(t.TParams)
+	case "Elem":
+		return tm.TypeVal(t.Elem)
+	case "Constraint":
+		return tm.TypeVal(t.Constraint)
 	}
 	ex.Inconclusive("types.Type." + method + " on the model")
 	return nil
@@ -447,6 +459,17 @@ func (tm *TM) Stubs() map[string]exec.Stub {
 			panic(&exec.GoPanic{Msg: "nil pointer dereference in types.IsInterface", Runtime: true})
 		}
 		return ex.C.BoolC(iv.V.(*MType).Underlying().K == "Interface")
+	}
+	st["go/types.Unalias"] = func(ex *exec.Exec, c *exec.CallInfo) exec.Value {
+		iv := c.Args[0].(exec.Iface)
+		if iv.T == nil {
+			return iv
+		}
+		t := iv.V.(*MType)
+		for t.K == "Alias" {
+			t = t.Under
+		}
+		return tm.TypeVal(t)
 	}
 	st["go/types.TypeString"] = func(ex *exec.Exec, c *exec.CallInfo) exec.Value {
 		iv := c.Args[0].(exec.Iface)
